@@ -296,6 +296,24 @@ fn run_case(lines: &[String], out: &mut impl Write) {
                         break;
                     }
                 }
+                // what the task wrote last is still in the socket (also when the adapter is gone by now): the peer reads it
+                if !mode_read {
+                    let mut buf = vec![0u8; 1 << 20];
+                    loop {
+                        match peer.read(&mut buf) {
+                            Ok(0) => break,
+                            Ok(k) => {
+                                for i in 0..k {
+                                    if buf[i] != ((peer_pos + i) % 251) as u8 {
+                                        peer_ok = false;
+                                    }
+                                }
+                                peer_pos += k;
+                            }
+                            Err(_) => break,
+                        }
+                    }
+                }
             }
             _ => {}
         }
